@@ -229,6 +229,7 @@ where
         fn next(&mut self) -> (res: Option<Self::Item>)
         {
             loop
+            /*@*/     decreases self.ops.len(),
             {
                 if let Some(ref mut iter) = self.current_iter {
                     if let Some(rv) = iter.next() {
